@@ -12,5 +12,8 @@ CHECKS = {
     "C13": dict(level="model_checking", technique=SE,
                 text="Bounded symbolic execution of _create_cache / get_initial_conditions / get_args / classification accessors / Simulator.__init__ on assignment chains and on every DAG over 3 derived quantities with all leaf kinds: z3 proves initial values and assignment-defined parameters equal the evaluator at (declared state, t=0), that parameter-like quantities keep that term at an unrelated symbolic state/time, that everything else is recomputed, and the same after parameter / initial-value updates on a populated cache; classification compared with the transitive closure.",
                 note=NOTE),
+    "C04": dict(level="model_checking", technique=SE + "; ODE solutions are uninterpreted flow functions of (parameters in force, start state, elapsed time)",
+                text="The real Simulator and the real Scipy wrapper run on symbolic end times, time points, overrides and parameter values, with only scipy.integrate.solve_ivp/ode replaced by an uninterpreted flow obeying scipy's documented preconditions. For every history of the bounded family and every feasible path z3 proves: a continuation is refused iff its end <= the absolute time reached; the accumulated index equals the specified points, strictly increasing; every row equals Flow(parameters of that segment, previous final state with overrides, elapsed time); one parameter record per segment.",
+                note=NOTE + " The flow stub stands for any ODE solver that meets solve_ivp's contract; LSODA's numerical accuracy is outside the claim."),
 }
 NOT_APPLICABLE = {}
